@@ -242,7 +242,7 @@ func vaFinalResponse(w []byte, head bool) (r vaResp, interim int, ok bool) {
 
 var vaCodes = [...]int{103, 201, 204, 304, 404}
 
-const vaNumOps = 8
+const vaNumOps = 9
 
 // vaProgram is a handler made of a list of operations on the ResponseWriter.
 type vaProgram struct {
@@ -273,6 +273,8 @@ func (p *vaProgram) ServeHTTP(w http.ResponseWriter, r *http.Request) {
 			}
 		case 7:
 			w.Header().Del("X-A")
+		case 8:
+			w.Write(nil) // writes the header like any other Write
 		}
 	}
 }
